@@ -85,13 +85,23 @@ fn zlib(data: &[u8]) -> Vec<u8> {
     e.write_all(data).unwrap();
     e.finish().unwrap()
 }
+/// PNG prediction with one byte per pixel, cycling through the row filters Up, Sub, Average, Paeth, None
 fn png_up(data: &[u8], cols: usize) -> Vec<u8> {
+    let paeth = |a: u8, b: u8, c: u8| -> u8 { let (a1, b1, c1) = (a as i32, b as i32, c as i32); let p = a1 + b1 - c1; let (pa, pb, pc) = ((p - a1).abs(), (p - b1).abs(), (p - c1).abs()); if pa <= pb && pa <= pc { a } else if pb <= pc { b } else { c } };
     let mut out = vec![];
     let mut prev = vec![0u8; cols];
-    for row in data.chunks(cols) {
-        out.push(2);
-        for (i, b) in row.iter().enumerate() { out.push(b.wrapping_sub(prev[i])); }
+    for (r, row) in data.chunks(cols).enumerate() {
+        let f = [2u8, 1, 3, 4, 0][r % 5];
+        out.push(f);
+        for (i, b) in row.iter().enumerate() {
+            let a = if i >= 1 { row[i - 1] } else { 0 };
+            let up = prev[i];
+            let ul = if i >= 1 { prev[i - 1] } else { 0 };
+            let pred = match f { 0 => 0, 1 => a, 2 => up, 3 => ((a as u16 + up as u16) / 2) as u8, _ => paeth(a, up, ul) };
+            out.push(b.wrapping_sub(pred));
+        }
         prev = row.to_vec();
+        prev.resize(cols, 0);
     }
     out
 }
